@@ -147,9 +147,10 @@ from vt import fakes, rt  # noqa: E402
 RNAMES = ['data/ab/cd', 'data/abc/x', 'data-old/y', 'sp ace/%41#+.bin', 'a', 'data/ab/ce-é', 'b/1', 'b/2', 'b/3']
 
 
-def remote_store_case(kind, acts, names, page):
-    svc = fakes.FakeS3(page=page) if kind == 's3' else fakes.FakeB2(page=page)
-    be = fakes.s3_backend(svc) if kind == 's3' else fakes.b2_backend(svc)
+def remote_store_case(kind, acts, names, page, spelling=0):
+    # B2: the repository location names the bucket or gives its id; the application key is unrestricted or restricted to it
+    svc = fakes.FakeS3(page=page) if kind == 's3' else fakes.FakeB2(page=page, restricted=spelling >= 2)
+    be = fakes.s3_backend(svc) if kind == 's3' else fakes.b2_backend(svc, by_id=spelling % 2 == 1)
     loop = rt.MiniLoop()
     model = {}
 
@@ -216,8 +217,9 @@ def e_remote(k: int) -> bool:
     with NoTracing():
         names = [RNAMES[0], RNAMES[1], RNAMES[2], RNAMES[3], RNAMES[6], RNAMES[7], RNAMES[8]]
         acts = [a0, a1, a2, a3, 1, 2, 1]
-        ok, msg = remote_store_case(['s3', 'b2'][ki], acts, names, [1, 2, 1000][pi])
-        tick('e_remote', [['s3', 'b2'][ki], [1, 2, 1000][pi], a0, a1, a2, a3])
+        spelling = (a0 + a1 + a2 + a3 + pi) % 4
+        ok, msg = remote_store_case(['s3', 'b2'][ki], acts, names, [1, 2, 1000][pi], spelling)
+        tick('e_remote', [['s3', 'b2'][ki], [1, 2, 1000][pi], a0, a1, a2, a3, spelling])
         if not ok:
             _say(msg)
         return ok
@@ -326,3 +328,70 @@ def e_download_race(k: int) -> bool:
         if not ok:
             _say(msg)
         return ok
+
+
+# --------------------------------------------------------------------------- S: prefix filter of Local.list_files over a symbolic tree
+class _FEntry:
+    def __init__(self, path, name, is_dir):
+        self.path, self.name, self._d = path, name, is_dir
+
+    def is_dir(self, follow_symlinks=True):
+        return self._d
+
+    def is_file(self, follow_symlinks=True):
+        return not self._d
+
+    def __fspath__(self):
+        return self.path
+
+
+class _FScan:
+    def __init__(self, entries):
+        self.e = entries
+
+    def __enter__(self):
+        return iter(self.e)
+
+    def __exit__(self, *a):
+        return False
+
+    def __iter__(self):
+        return iter(self.e)
+
+
+def s_prefix(a: str, b: str, c: str, prefix: str) -> bool:
+    """The real Local.list_files (and iterative_scandir) over an in-memory directory tree holding the objects `a/b`, `a/c`
+    and `c` (symbolic segment names) with a symbolic prefix: the listing is exactly the names that start with the prefix.
+    pre: 1 <= len(a) <= 2 and 1 <= len(b) <= 2 and 1 <= len(c) <= 2 and len(prefix) <= 3
+    pre: all(ch not in '/\\x00.' for ch in a + b + c) and '\\x00' not in prefix and '//' not in prefix and '.' not in prefix
+    pre: a != c and b != c and not prefix.startswith('/')
+    post: _
+    """
+    import replicat.utils.fs as FS
+    root = '/R'
+    tree = {root: [(a, True), (c, False)], root + '/' + a: [(b, False), (c, False)]}
+    names = [a + '/' + b, a + '/' + c, c]
+
+    def scandir(p):
+        p = os.fspath(p)
+        while len(p) > 1 and p.endswith('/'):
+            p = p[:-1]
+        if p not in tree:
+            raise FileNotFoundError(p)
+        return _FScan([_FEntry(p + '/' + n, n, d) for n, d in tree[p]])
+
+    class _OS:
+        def __getattr__(self, n):
+            return getattr(os, n)
+    shim = _OS()
+    shim.scandir = scandir
+    saved = (LB.os, FS.os)
+    LB.os, FS.os = shim, shim
+    try:
+        be = LB.Local.__new__(LB.Local)
+        be.path = Path(root)
+        got = sorted(be.list_files.__wrapped__(be, prefix)) if hasattr(be.list_files, '__wrapped__') else sorted(be.list_files(prefix))
+    finally:
+        LB.os, FS.os = saved
+    want = sorted(n for n in names if n.startswith(prefix))
+    return got == want
